@@ -26,7 +26,8 @@ WIDE = ["ĞĞµÑ„Ñ‚ÑŒ Ğ¸ Ğ³Ğ°Ğ·", "äº•æˆ¸ æ¤œå±¤", "ğ’²ell ğ“›og ğŸ˜€", "Î•Î»Î»Î
 ODDSEP = ["next\x85line", "form\x0cfeed", "vt\x0btab", "fs\x1cgs\x1drs\x1eus", "nbsp\xa0here", "soft\xadhyphen"]   # str.splitlines() boundaries
 # characters for which str.isprintable() / isspace() / category tests answer unusually (always between two letters of a field)
 INVISIBLE = ["Soci\xe9t\xe9\xa0P\xe9troli\xe8re", "co\xadop\xe9rative", "zero\u200cwidth\u200djoiner", "thin\u2009space", "ideo\u3000space",
-             "mark\u200eltr\u200frtl", "private\ue000use", "bom\ufeffinside", "comb\u0301ining"]
+             "mark\u200eltr\u200frtl", "private\ue000use", "bom\ufeffinside", "comb\u0301ining",
+             "cafe\u0301 decomposed", "10 k\u2126 ohm sign", "5 \u212b angstrom", "300 \u212a kelvin", "\ufb01ne ligature"]
 MUTATIONS = ["well_value", "well_append", "well_delete", "version_value", "curve_inplace", "curve_append", "rename_item",
              "params_append", "other_text", "curve_delete"]
 
@@ -152,6 +153,18 @@ class C10(Prop):
         kinds = ["nonascii", "nosections", "hyphen", "runon", "plain", "comma_dlm", "comma_decimal", "tab_dlm"]
         docs = [make_doc(g, k) for k in g.sample(kinds, g.randint(3, 6))]
         for d in docs:
+            if d.get("expect") and g.random() < 0.3:
+                # pad with a comment line so that the first non-ASCII character of the file sits on a buffer or sniffing
+                # boundary (a multi-byte character straddling byte 4000 / 8192 / 4096)
+                lines = d["lines"]
+                k = next((i for i, ln in enumerate(lines) if not ln.isascii()), None)
+                if k is not None and k > 1:
+                    col = next(j for j, ch in enumerate(lines[k]) if ord(ch) > 127)
+                    before = len(("\n".join(lines[:k]) + "\n" + lines[k][:col]).encode("utf-8"))
+                    target = g.choice([3999, 4000, 4001, 4095, 4096, 8191, 8192, 8193])
+                    pad = target - before - 2
+                    if pad > 0:
+                        lines.insert(1, "#" + "p" * pad)
             if g.random() < 0.06 and d["lines"] and d["lines"][0].startswith("~"):
                 # a very long first line (titles may carry free text): still LAS data, never a file name
                 d["lines"][0] = d["lines"][0] + " " + "-" * g.choice([300, 4000, 4096, 5000, 70000])
